@@ -1,15 +1,182 @@
 /-
-Driver.AddrSuite — suite `addr` (stub: replaced by the owner of the suite).
-Must define `addrLine : String → String` (case line ↦ model observation line) and
-`addrPred : String → String → String → String` (property id, case line, implementation
-observation line ↦ "ok" | "fail <reason>").
+Driver.AddrSuite — suite `addr` (C16): parse a case, run Model.Addr / Model.Wire,
+print the observation in the canonical form of harness/src/suites/addr.rs;
+evaluate `P_C16` on the implementation's observation.
 -/
-import Driver.Sx
+import Driver.WorldInst
+import VarlinkVerif.Model.Addr
+import VarlinkVerif.Pred.Addr
 
 namespace VV
+open Sx
+open Addr
 
-def addrLine (_line : String) : String := "(stub)"
+def tgtSx : Target → Sx
+  | .tcp a => .list [.atom "ok", .atom "tcp", strAtom (String.ofList a)]
+  | .abstract a => .list [.atom "ok", .atom "abstract", strAtom (String.ofList a)]
+  | .path a => .list [.atom "ok", .atom "path", strAtom (String.ofList a)]
 
-def addrPred (_prop _caseLine _obsLine : String) : String := "fail stub-suite"
+def parseTargets (l : List Sx) : List Target :=
+  l.filterMap fun e => match e with
+    | Sx.list [Sx.atom "tcp", t] => (asStr t).map fun s => Target.tcp s.toList
+    | Sx.list [Sx.atom "abstract", t] => (asStr t).map fun s => Target.abstract s.toList
+    | Sx.list [Sx.atom "path", t] => (asStr t).map fun s => Target.path s.toList
+    | _ => none
+
+def nameChar (c : Char) : Bool := c.isAlphanum || c == '.' || c == '_' || c == '-'
+
+/-- what can be bound in the environment a `parse`/`actenv` case runs in (see addr.rs) -/
+def bindable (tcpOk : List Target) : Target → Bool
+  | .abstract _ => true
+  | .path p =>
+    match Addr.stripPrefix ['%', 'D', '/'] p with
+    | some name => !name.isEmpty && name.all nameChar
+    | none => false
+  | .tcp a => tcpOk.contains (.tcp a)
+
+def addrParseLine (address : String) (live tcpOk : List Target) : Sx :=
+  let s := address.toList
+  let client : Sx := match clientParse s with
+    | none => .atom "invalid"
+    | some t => if live.contains t then tgtSx t else .atom "io"
+  let server : Sx := match serverListen [] 0 s with
+    | .invalid => .atom "invalid"
+    | .bind t => if bindable tcpOk t then tgtSx t else .atom "io"
+    | _ => .atom "unexpected-activation"
+  .list [.atom "parse", .list [.atom "client", client], .list [.atom "server", server]]
+
+def modelPid : Nat := 987654321
+
+def parsePidSpec : Sx → Option AddrPred.PidSpec
+  | .atom "-" => some .absent
+  | .list [.atom "lit", v] => (asStr v).map .lit
+  | .list [.atom "self", p, s] => do
+    let p ← asStr p
+    let s ← asStr s
+    pure (.self p s)
+  | _ => none
+
+def envOf (fds : Option String) (pid : AddrPred.PidSpec) (names : Option String) : Env :=
+  (match fds with | some v => [(kListenFds, v.toList)] | none => []) ++
+  (match pid with
+   | .absent => []
+   | .lit v => [(kListenPid, v.toList)]
+   | .self p s => [(kListenPid, p.toList ++ decimal modelPid ++ s.toList)]) ++
+  (match names with | some v => [(kListenFdnames, v.toList)] | none => [])
+
+def actenvLine (fds : Option String) (pid : AddrPred.PidSpec) (names : Option String) (passed : Nat)
+    (address : String) : Sx :=
+  let inheritedName (fd : Nat) : String :=
+    if 3 ≤ fd ∧ fd - 3 < passed then "%D/fd" ++ toString fd ++ ".sock" else "?"
+  let r : Sx := match serverListen (envOf fds pid names) modelPid address.toList with
+    | .invalid => .atom "invalid"
+    | .adoptUnix fd => .list [.atom "ok", .atom "unix", .atom "t", .atom (toString fd), strAtom (inheritedName fd)]
+    | .adoptTcp fd => .list [.atom "ok", .atom "tcp", .atom "t", .atom (toString fd), strAtom "?"]
+    | .bind t =>
+      if bindable [.tcp "127.0.0.1:0".toList] t then
+        match t with
+        | .tcp _ => .list [.atom "ok", .atom "tcp", .atom "f", .atom "-", strAtom "*"]
+        | .abstract a => .list [.atom "ok", .atom "unix", .atom "f", .atom "-", strAtom ("@" ++ String.ofList a)]
+        | .path a => .list [.atom "ok", .atom "unix", .atom "f", .atom "-", strAtom (String.ofList a)]
+      else .atom "io"
+  .list [.atom "listener", r]
+
+def xportLine (w : WorldSpec) (chunks : List Bytes) (dec : List (Bytes × Frame)) : Sx :=
+  let total := chunks.flatten
+  let reads := chunks.filter (· ≠ [])
+  -- the byte-level model under this very read schedule; C16_transport_independent says the
+  -- schedule does not matter
+  let h := handle consts w.service (decOf dec) reads
+  let out : Sx := .list (.atom "out" :: h.groups.flatten.map ofReply)
+  let o := serve consts w.service ((frames total).1.map (decOf dec))
+  let out' : Sx := .list (.atom "out" :: o.groups.flatten.map ofReply)
+  let act : Sx := .list [.atom "act", strAtom "1", strAtom "varlink", .atom "t", .atom "t", .atom "t", .atom "t"]
+  .list [.atom "xport", .list [.atom "unix", out], .list [.atom "unixmode", out'], .list [.atom "abstract", out],
+         .list [.atom "tcp", out'], .list [.atom "activate", out], .list [.atom "bridge", out'], act]
+
+def asOptStrField : Sx → Option (Option String) := asOptStr
+
+def addrLine (line : String) : String :=
+  match parse line with
+  | none => "(model-parse-error)"
+  | some (.list [.atom "parse", a, .list (.atom "live" :: live), .list (.atom "bindable" :: b)]) =>
+    match asStr a with
+    | some a => render (addrParseLine a (parseTargets live) (parseTargets b))
+    | none => "(model-case-error)"
+  | some (.list [.atom "actenv", fds, pid, names, passed, a]) =>
+    match asOptStr fds, parsePidSpec pid, asOptStr names, asNat passed, asStr a with
+    | some fds, some pid, some names, some passed, some a => render (actenvLine fds pid names passed a)
+    | _, _, _, _, _ => "(model-case-error)"
+  | some (.list [.atom "xport", w, .list (.atom "reads" :: cs), dec]) =>
+    match parseWorld w, cs.mapM asBytes, parseDec dec with
+    | some w, some cs, some dec => render (xportLine w cs dec)
+    | _, _, _ => "(model-case-error)"
+  | some _ => "(model-case-error)"
+
+/-! ### predicate -/
+
+def parseRes : Sx → AddrPred.Res
+  | .atom "invalid" => .invalid
+  | .atom "io" => .io
+  | .list [.atom "ok", .atom sch, t] =>
+    match asStr t with
+    | some t => .ok sch t
+    | none => .other "garbled"
+  | .atom a => .other a
+  | _ => .other "garbled"
+
+def parseLRes : Sx → AddrPred.LRes
+  | .atom "invalid" => .invalid
+  | .atom "io" => .io
+  | .list [.atom "ok", .atom kind, act, fd, name] =>
+    match asOptBool act, asStr name with
+    | some (some a), some n => .ok kind a (asNat fd) n
+    | _, _ => .other "garbled"
+  | .atom a => .other a
+  | _ => .other "garbled"
+
+def parseXRes : Sx → AddrPred.XRes
+  | .list (.atom "out" :: rs) => .out (rs.map render)
+  | .list (.atom tag :: _) => .bad tag
+  | _ => .bad "garbled"
+
+def parseActFacts : Sx → Option AddrPred.ActFacts
+  | .list [.atom "act", f, n, p, a, l, c] => do
+    let f ← asStr f
+    let n ← asStr n
+    let p ← asOptBool p
+    let a ← asOptBool a
+    let l ← asOptBool l
+    let c ← asOptBool c
+    pure { listenFds := f, fdnames := n, pidOk := p == some true, addressIsFd3 := a == some true,
+           fd3Listening := l == some true, connAddress := c == some true }
+  | _ => none
+
+def verdictStr : Option String → String
+  | none => "ok"
+  | some r => "fail " ++ r
+
+def addrPred (prop caseLine obsLine : String) : String :=
+  if prop != "C16" then "fail unknown-property" else
+  match parse caseLine, parse obsLine with
+  | some cs, some os =>
+    match cs, os with
+    | .list (.atom "parse" :: a :: _), .list [.atom "parse", .list [.atom "client", c], .list [.atom "server", s]] =>
+      match asStr a with
+      | some a => verdictStr (AddrPred.P_parse a (parseRes c) (parseRes s))
+      | none => "fail unparsable-case"
+    | .list [.atom "actenv", fds, pid, names, _, a], .list [.atom "listener", r] =>
+      match asOptStr fds, parsePidSpec pid, asOptStr names, asStr a with
+      | some fds, some pid, some names, some a => verdictStr (AddrPred.P_actenv fds pid names a (parseLRes r))
+      | _, _, _, _ => "fail unparsable-case"
+    | .list (.atom "xport" :: _), .list (.atom "xport" :: rest) =>
+      let runs := rest.filterMap fun e => match e with
+        | Sx.list [Sx.atom n, r] => if n == "act" || n == "noact" then none else some (n, parseXRes r)
+        | _ => none
+      let act := rest.findSome? parseActFacts
+      verdictStr (AddrPred.P_xport runs act)
+    | _, .list (.atom "panic" :: _) => "fail panic"
+    | _, _ => "fail unparsable-case-or-observation"
+  | _, _ => "fail unparsable-line"
 
 end VV
